@@ -192,6 +192,7 @@ func run(c Case) (pbt.Outcome, error) {
 		return r
 	}
 	wantSnap := map[string][]time.Duration{}
+	var held [][]time.Duration // Values() slices of earlier snapshots (test mode)
 	distinctTimers := map[string]bool{}
 	passBetween := false
 	sawRecord := false
@@ -292,7 +293,18 @@ func run(c Case) (pbt.Outcome, error) {
 					errs.Addf("op %d: stopwatch recorded %v under %s, elapsed time was within [%v,%v] for %s", oi, d, rec.ID(ev[0].Name, ev[0].Tags), lo, hi, timerID(op.T))
 				}
 			} else {
+				// what earlier snapshots handed out is the caller's: overwritten and appended to here, it
+				// must not change what the timers have recorded
+				for hi, v := range held {
+					for i := range v {
+						v[i] = -777
+					}
+					held[hi] = append(v, -778)
+				}
 				vals := ts.Snapshot().Timers()[tally.KeyForPrefixedStringMap(mscopes[c.Timers[op.T].Scope].Metric(string(c.Timers[op.T].Name)), mscopes[c.Timers[op.T].Scope].Tags)]
+				if vals != nil {
+					held = append(held, vals.Values())
+				}
 				if vals == nil || len(vals.Values()) != len(wantSnap[timerID(op.T)])+1 {
 					errs.Addf("op %d: stopwatch value missing from snapshot", oi)
 				} else if d := vals.Values()[len(vals.Values())-1]; d < lo || d > hi {
@@ -401,6 +413,12 @@ func run(c Case) (pbt.Outcome, error) {
 		}
 	}
 	if c.Mode == "test" {
+		for hi, v := range held {
+			for i := range v {
+				v[i] = -777
+			}
+			held[hi] = append(v, -778)
+		}
 		snap := ts.Snapshot().Timers()
 		for i := range c.Timers {
 			key := tally.KeyForPrefixedStringMap(mscopes[c.Timers[i].Scope].Metric(string(c.Timers[i].Name)), mscopes[c.Timers[i].Scope].Tags)
